@@ -103,6 +103,17 @@ def make_tasks():
             w["acts"].append(act)
             upd = {f"k{k}": v for k, v in parse_kv(act[1:]).items()}
             if act[0] == "F":
+                # how the task raises is part of the input shape: plain, translated from a low-level error (`raise .. from`,
+                # the usual idiom: __cause__ set), or raised while handling one (__context__ only); the progress attached to
+                # the TransientError must survive in all three
+                style = (n + len(w["spec"]["script"])) % 3
+                if style == 1:
+                    raise TransientError("scripted transient", context_update=upd or None) from ConnectionResetError("scripted low-level error")
+                if style == 2:
+                    try:
+                        raise TimeoutError("scripted low-level timeout")
+                    except TimeoutError:
+                        raise TransientError("scripted transient", context_update=upd or None)
                 raise TransientError("scripted transient", context_update=upd or None)
             if act[0] == "S":
                 return TaskResult.success(context=upd or None)
